@@ -8,8 +8,14 @@ def instances(tier):
     out = []
     for n in ((0, 1, 2) if q else (0, 1, 2, 3)):
         out.append({'entry': 'h_any', 'params': [n], 'bound': 'every NUL-free byte string of length %d, every 2-chunk cut' % n})
-    for nt, sp, al in ([(1, 0, 24), (2, 0, 24), (3, 0, 12), (1, 1, 24), (2, 1, 8)] if q else [(1, 0, 24), (2, 0, 24), (3, 0, 24), (4, 0, 10), (1, 1, 24), (2, 1, 16), (3, 1, 7)]):
+    for nt, sp, al in ([(1, 0, 29), (2, 0, 29), (3, 0, 12), (1, 1, 29), (2, 1, 8)] if q else [(1, 0, 29), (2, 0, 29), (3, 0, 29), (4, 0, 10), (1, 1, 29), (2, 1, 16), (3, 1, 7)]):
         out.append({'entry': 'h_tokens', 'params': [nt, sp, al], 'bound': 'every sequence of %d token(s) from the first %d of the token table%s, every 2-chunk cut, every proper prefix' % (nt, al, ' with one arbitrary byte spliced at any position' if sp else '')})
+    for nd in (0, 1, 8, 9, 10, 11, 15):
+        for fill in (0, 1):
+            for tail in ((0, 1) if q else (0, 1, 2, 3)):
+                out.append({'entry': 'h_number', 'params': [nd, fill, tail], 'bound': 'number literals: optional minus, any leading digit, %d %ss, tail form %d' % (nd, '9' if fill else '0', tail)})
+    for w in (0, 1):
+        out.append({'entry': 'h_layout', 'params': [w], 'bound': 'document %d with every choice of two gaps and whitespace separators (space, LF, TAB CR LF)' % w})
     for d, o in ((1, 0), (8, 0), (64, 0), (512, 0), (8, 1), (64, 1)) if q else ((1, 0), (8, 0), (64, 0), (512, 0), (600, 0), (8, 1), (64, 1), (512, 1)):
         out.append({'entry': 'h_nest', 'params': [d, o], 'opts': {'maxsteps': 20000000}, 'bound': '%s nested %d deep around any digit' % ('objects' if o else 'arrays', d)})
     return out
